@@ -23,7 +23,19 @@ def run(ctx):
         raise vf.Infra("schema types without a Go registry entry: %s" % missing)
     cc.mc_codec(ctx, k, part="pairs")
     if ctx.replay:
-        lines = vf.read_lines(ctx.replay)
+        # a persisted rt record is replayed from its byte side: every recorded encoding is decoded and re-encoded by the
+        # current tree and judged like a C13 'valid' case (value, consumed count and re-encoding must be the specified ones)
+        casep = ctx.tmp + "/cases.ndjson"
+        with open(casep, "w") as f:
+            for ln in vf.read_lines(ctx.replay):
+                r = json.loads(ln)
+                for b in r.get("encs", []) or ([r["in"]] if "in" in r else []):
+                    f.write(json.dumps({"ty": r["ty"], "cls": "valid", "in": b}) + "\n")
+        lines = cc.run_dec(ctx, binp, casep, ctx.tmp + "/trace.ndjson")
+        ctx.cov["evaluations"] = len(lines)
+        ctx.cov["rule"] = "replay of recorded encodings"
+        vf.validate_trace(ctx, "Codec_Trace", cc.shard_by_size(lines), constants=cc.trace_constants(k), what="replayed encoding does not round-trip")
+        return
     else:
         tracep = ctx.tmp + "/trace.ndjson"
         env = {"VF_MODE": "rt", "VF_OUT": tracep, "VF_SEED": ctx.seed, "VF_TYPES": ",".join(names),
